@@ -1,6 +1,7 @@
 package main
 
 import (
+	"os"
 	"fmt"
 	"go/constant"
 	"go/token"
@@ -1031,9 +1032,24 @@ func (fc *FnCtx) analyzeLoops() {
 	for h := range fc.loops {
 		hs = append(hs, h)
 	}
-	sort.Slice(hs, func(i, j int) bool { return fc.loopPos(hs[i]) < fc.loopPos(hs[j]) })
+	sort.Slice(hs, func(i, j int) bool {
+		pi, pj := fc.loopPos(hs[i]), fc.loopPos(hs[j])
+		if pi != pj {
+			return pi < pj
+		}
+		// same first position: the enclosing loop comes first, then block order
+		if fc.loops[hs[i]].body[hs[j]] != fc.loops[hs[j]].body[hs[i]] {
+			return fc.loops[hs[i]].body[hs[j]]
+		}
+		return hs[i].Index < hs[j].Index
+	})
 	for i, h := range hs {
 		fc.loops[h].ord = i + 1
+	}
+	if os.Getenv("GOVC_DEBUGLOOPS") != "" {
+		for _, h := range hs {
+			fmt.Fprintf(os.Stderr, "LOOPS %s header=%d ord=%d pos=%d nbody=%d\n", fc.name, h.Index, fc.loops[h].ord, fc.loopPos(h), len(fc.loops[h].body))
+		}
 	}
 }
 
@@ -1043,9 +1059,18 @@ func (fc *FnCtx) loopPos(h *ssa.BasicBlock) token.Pos {
 	best := token.Pos(1 << 40)
 	for b := range li.body {
 		for _, in := range b.Instrs {
+			if _, isPhi := in.(*ssa.Phi); isPhi {
+				continue // a phi carries the position of the variable's declaration, not of the loop
+			}
 			p := in.Pos()
 			if d, ok := in.(*ssa.DebugRef); ok {
 				p = d.Expr.Pos()
+			}
+			if p.IsValid() && !fc.posInFn(p) {
+				if os.Getenv("GOVC_DEBUGLOOPS") != "" {
+					fmt.Fprintf(os.Stderr, "FOREIGNPOS %s: %T %s at %s\n", fc.name, in, in.String(), fc.eng.fset.Position(p))
+				}
+				continue
 			}
 			if p.IsValid() && p < best {
 				best = p
@@ -1129,4 +1154,15 @@ func (fc *FnCtx) sealedTagFact(t types.Type, iface *types.Interface, tag string)
 		fc.decls = append(fc.decls, fmt.Sprintf("(define-fun %s ((t %s)) Bool %s)", name, SortTag, or(alts...)))
 	}
 	return app(name, tag)
+}
+
+// posInFn: p lies within the source text of the function (positions of instructions the SSA builder copies from
+// elsewhere, e.g. the declaration of a promoted method, must not take part in source-order numbering: token.Pos values
+// of different files are ordered by load order, which varies between runs).
+func (fc *FnCtx) posInFn(p token.Pos) bool {
+	syn := fc.fn.Syntax()
+	if syn == nil {
+		return true
+	}
+	return syn.Pos() <= p && p <= syn.End()
 }
